@@ -158,7 +158,7 @@ impl MT103 {
         // Check field 72 for reject codes like /REJT/
         if let Some(ref field_72) = self.field_72 {
             for line in &field_72.information {
-                if line.contains("/REJT/") || line.contains("/RETN/") {
+                if line.contains("/REJT/") {
                     return true;
                 }
             }
